@@ -173,10 +173,13 @@ func (ts TypeSettings) ArrayRules() *ArrayRules {
 
 // WithMinLen specifies the min length for the object.
 func (ts TypeSettings) WithMinLen(l uint) TypeSettings {
-	if ts.arrayRules == nil {
-		ts.arrayRules = new(ArrayRules)
+	// the rules are copied: the receiver (and every other TypeSettings value derived from it) shares the pointer
+	newArrayRules := new(ArrayRules)
+	if ts.arrayRules != nil {
+		*newArrayRules = *ts.arrayRules
 	}
-	ts.arrayRules.Min = l
+	newArrayRules.Min = l
+	ts.arrayRules = newArrayRules
 
 	return ts
 }
@@ -192,10 +195,13 @@ func (ts TypeSettings) MinLen() (uint, bool) {
 
 // WithMaxLen specifies the max length for the object.
 func (ts TypeSettings) WithMaxLen(l uint) TypeSettings {
-	if ts.arrayRules == nil {
-		ts.arrayRules = new(ArrayRules)
+	// the rules are copied: the receiver (and every other TypeSettings value derived from it) shares the pointer
+	newArrayRules := new(ArrayRules)
+	if ts.arrayRules != nil {
+		*newArrayRules = *ts.arrayRules
 	}
-	ts.arrayRules.Max = l
+	newArrayRules.Max = l
+	ts.arrayRules = newArrayRules
 
 	return ts
 }
